@@ -122,6 +122,9 @@ func (rc *runCtx) build(flavour string) error {
 		env = append(env, "CGO_ENABLED=0")
 	case "plain":
 		args = append(args, "-tags", "verif", "-gcflags=all=-d=checkptr")
+	case "fuzz":
+		// edge instrumentation for Go's coverage-guided fuzzing engine
+		args = append(args, "-tags", "verif", "-fuzz=Fuzz")
 	default:
 		return fmt.Errorf("unknown flavour %s", flavour)
 	}
@@ -694,6 +697,9 @@ func (rc *runCtx) replay(spec propSpec, path string) int {
 		return 2
 	}
 	rc.tier, rc.seed = doc.Tier, doc.Seed
+	if abs, err := filepath.Abs(path); err == nil {
+		os.Setenv("VERIF_REPLAY", abs) // parts whose witness is an input rather than a case number read it from the file
+	}
 	var ps *partSpec
 	for i := range spec.Parts {
 		if spec.Parts[i].Name == doc.Violation.Part {
